@@ -407,6 +407,29 @@ func poolLocks(w *world) []utx {
 	return []utx{{"l0", l0}, {"l1", l1}, {"l2", l2}}
 }
 
+// poolP2SH: q0 pays an OP_TRUE coin to a P2SH output whose redeem script holds
+// k OP_CHECKSIG opcodes in a branch that is never executed
+// (OP_0 OP_IF <k x OP_CHECKSIG> OP_ENDIF OP_1); q1 spends it.  Consensus counts
+// those k sigops for q1 (BIP16 accurate counting, cost 4k) whether or not segwit
+// is active, so the template's sigop accounting must as well.
+func poolP2SH(w *world, k int) []utx {
+	redeem := []byte{0x00, 0x63}
+	for i := 0; i < k; i++ {
+		redeem = append(redeem, 0xac)
+	}
+	redeem = append(redeem, 0x68, 0x51)
+	h := address.Hash160(redeem)
+	p2sh := append(append([]byte{0xa9, 0x14}, h...), 0x87)
+	q0 := mkTx(1, []inSpec{{Op: coin(w.F[3], 8), Value: 2.5e8}}, 30000, 1, false, []*wire.TxOut{{Value: 1e8, PkScript: p2sh}}, 0)
+	q1 := mkTx(1, []inSpec{{Op: outPt(q0, 1), Value: 1e8}}, 40000, 2, false, nil, 0)
+	push := []byte{byte(len(redeem))}
+	if len(redeem) > 75 {
+		push = []byte{0x4c, byte(len(redeem))}
+	}
+	q1.TxIn[0].SignatureScript = append(push, redeem...)
+	return []utx{{"q0", q0}, {fmt.Sprintf("q1/%d", k), q1}}
+}
+
 // poolStar: one parent with n outputs and n children spending one output each
 // (wide fan-out; with n >= 252 the block's transaction count needs a 3-byte varint).
 func poolStar(w *world, n int) []utx {
